@@ -1011,6 +1011,22 @@ impl Check for C08 {
             }
             // one case in eight: chaining on and an original map of its own (also degenerate ones: no mappings at all, a
             // first mapping beyond the end of the code) - the trailer has to be in place whatever the chain yields
+            // one case in sixteen: legal (for Node) but unusual statements - whatever the rewriter makes of them (refusal
+            // included), an accepted file must come out valid
+            let sel4 = tape.get(4).copied().unwrap_or(0);
+            if sel4 & 15 == 15 {
+                const ODD: &[&str] = &[
+                    "var \\u0061sync = [a]; for (\\u0061sync of [a, b]) { y += \\u0061sync; }",
+                    "if (a) function legacyFn() { return a + b; }",
+                    "var l\\u0065t = a; l\\u0065t += b;",
+                    "lbl: function labelled() { return a + b; }",
+                    "var yi\\u0065ld = a + b;",
+                    "for (var i9 = 0 in {}) { y += i9; }",
+                ];
+                let odd = ODD[((sel4 >> 4) as usize) % ODD.len()];
+                let src = v["src"].as_str().unwrap_or("").to_string();
+                v["src"] = json!(src.replacen("let x = a", &format!("{odd} let x = a"), 1));
+            }
             // one sloppy script in sixteen: a legacy decimal literal with a leading zero as object of a member access
             let sel3 = tape.get(3).copied().unwrap_or(0);
             if sel3 & 15 == 15 && !crate::known::avoid_flags().legacy_decimal_member {
@@ -1067,23 +1083,33 @@ impl Check for C08 {
             rw::Outcome::Err(_) => return Outcome::skip("rewriter returned an error"),
             rw::Outcome::Panic(_) => return Outcome::skip("rewriter panicked (C13)"),
         };
-        let src_parsed = match ast::parse(&src) {
-            Ok(p) => p,
-            Err(_) => return Outcome::skip("input rejected by the independent parser"),
-        };
+        // the harness' own (strict) parse of the input gives the kind; an input that it rejects but the rewriter accepted
+        // (and Node accepts) is still in scope: the kind is then the one Node accepts the input as
+        let src_parsed = ast::parse(&src).ok();
         // V8 on the input (precondition) and on the output
-        let req = json!({"cmd": "compileBatch", "items": [{"code": src, "module": src_parsed.is_module}, {"code": content, "module": src_parsed.is_module}]});
+        let kinds: Vec<bool> = match &src_parsed {
+            Some(p) => vec![p.is_module],
+            None => vec![false, true],
+        };
+        let mut items = vec![];
+        for k in &kinds {
+            items.push(json!({"code": src, "module": k}));
+            items.push(json!({"code": content, "module": k}));
+        }
+        let req = json!({"cmd": "compileBatch", "items": items});
         let resp = match node::call(ctx, &req) {
             Ok(r) => r,
             Err(e) => return Outcome::inconclusive(format!("node worker: {e}")),
         };
-        let r = resp["results"].as_array().cloned().unwrap_or_default();
-        if r.len() != 2 {
+        let all = resp["results"].as_array().cloned().unwrap_or_default();
+        if all.len() != 2 * kinds.len() {
             return Outcome::inconclusive("node worker: bad compile response");
         }
-        if r[0]["ok"] != json!(true) {
+        let Some(ki) = (0..kinds.len()).find(|i| all[2 * i]["ok"] == json!(true)) else {
             return Outcome::skip("Node rejects the input");
-        }
+        };
+        let r = vec![all[2 * ki].clone(), all[2 * ki + 1].clone()];
+        let input_is_module = kinds[ki];
         let Some((body, payload)) = split_trailer(&content) else {
             return Outcome::fail("trailer-missing", "the content does not end with an inline sourceMappingURL trailer line");
         };
@@ -1092,14 +1118,16 @@ impl Check for C08 {
             _ => return Outcome::fail("trailer-invalid", "trailer payload is not base64 of a JSON object"),
         }
         match ast::parse(&body) {
+            // (an input the strict parser rejects may contain a construct that the output legitimately still contains)
+            Err(_) if src_parsed.is_none() => {}
             Err(e) => {
                 // known finding: `08 .toString()` (legacy decimal literal with a leading zero) is printed as `08.toString()`
                 let legacy = src.contains("var legacy = 08 .");
                 return Outcome::fail(if legacy { "output-unparsable:legacy-decimal-member" } else { "output-unparsable" }, format!("the rewriter's own parser rejects the output: {e}"));
             }
             Ok(p) => {
-                if p.is_module != src_parsed.is_module {
-                    return Outcome::fail("kind-changed", format!("input is_module={} output is_module={}", src_parsed.is_module, p.is_module));
+                if src_parsed.is_some() && p.is_module != input_is_module {
+                    return Outcome::fail("kind-changed", format!("input is_module={} output is_module={}", input_is_module, p.is_module));
                 }
             }
         }
